@@ -814,7 +814,7 @@ func first(a, _ []byte) []byte { return a }
 //@   pathkey calls("Insert$1")
 //@   ensures[size_accounting] t.size == old(t.size) + calls("Insert$1")
 //@   ensures[new_leaf_holds_key] forallref(o, implies(fresh(o) && atype(o) == leafT(), leafKeyIs_alpha(o, keyS) && as(alphaLeafNode, o).value == val))
-//@   ensures[overwrite_key_matches] implies(ret() == 6, leafKeyIs_alpha(nl, keyS) && as(alphaLeafNode, nl).value == val)
+//@   ensures[overwrite_key_matches] implies(defined(nl) && calls("Insert$1") == 0 && calls("Get") == 0, leafKeyIs_alpha(nl, keyS) && as(alphaLeafNode, nl).value == val)
 //@   ensures[overwrite_only_value] implies(calls("Insert$1") == 0 && calls("Get") == 0, frameExcept("alphaLeafNode.value"))
 //@   ensures[arg_bytes_unchanged] reveal(key.obj) && sameBytes(key, 0, blen(key.obj))
 //@   ensures[key_owned] forallref(o, implies(fresh(o) && atype(o) == leafT(), fresh(as(alphaLeafNode, o).key.obj)))
@@ -836,7 +836,7 @@ func first(a, _ []byte) []byte { return a }
 //@   pathkey calls("Insert$1")
 //@   ensures[size_accounting] t.size == old(t.size) + calls("Insert$1")
 //@   ensures[new_leaf_holds_key] forallref(o, implies(fresh(o) && atype(o) == leafT(), leafKeyIs_$KIND(o, keyS) && as($KINDLeafNode, o).value == val))
-//@   ensures[overwrite_key_matches] implies(ret() == 6, leafKeyIs_$KIND(nl, keyS) && as($KINDLeafNode, nl).value == val)
+//@   ensures[overwrite_key_matches] implies(defined(nl) && calls("Insert$1") == 0 && calls("Get") == 0, leafKeyIs_$KIND(nl, keyS) && as($KINDLeafNode, nl).value == val)
 //@   ensures[overwrite_only_value] implies(calls("Insert$1") == 0 && calls("Get") == 0, frameExcept("$KINDLeafNode.value"))
 //@   ensures[wf] WF1_$KIND(t)
 //@   loop 1 (depth)
@@ -951,7 +951,7 @@ func first(a, _ []byte) []byte { return a }
 //@   pathkey calls("Insert$1")
 //@   ensures[size_accounting] t.size == old(t.size) + calls("Insert$1")
 //@   ensures[new_leaf_holds_key] forallref(o, implies(fresh(o) && atype(o) == leafT(), leafKeyIs_collation(o, keyS) && as(collateLeafNode, o).value == val))
-//@   ensures[overwrite_key_matches] implies(ret() == 6, leafKeyIs_collation(nl, keyS) && as(collateLeafNode, nl).value == val)
+//@   ensures[overwrite_key_matches] implies(defined(nl) && calls("Insert$1") == 0 && calls("Get") == 0, leafKeyIs_collation(nl, keyS) && as(collateLeafNode, nl).value == val)
 //@   ensures[overwrite_only_value] implies(calls("Insert$1") == 0 && calls("Get") == 0, frameExcept("collateLeafNode.value", "collationSortedTree.cok.src", "CollationOrderKey.src"))
 //@   ensures[wf] WF1_collation(t)
 //@   loop 1 (depth)
